@@ -12,6 +12,10 @@ CLAIMED = {
          "schedules (threads) are not explored: Kani does not model concurrency; Send+Sync of Tokenizer/Dictionary is a compile-time bound in the harness crate, trusted not explored"),
  "C06": ("ConnIdMapper::from_iter accepts exactly permutation pairs for all u16 vectors; matrix connector and whole-dictionary mapping keep cost(map r,map l)=cost(r,l) and map every entry consistently; malformed / wrong-length mappings give Err; tokenization before/after mapping agrees on a 2-character sentence",
          "matrix connector only (raw/dual mapping: thorough tier); user lexicon loaded after mapping and write/read round trip not reached"),
+ "C07": ("XOR double-array lookup (retrieve_cost) against its definition for arbitrary arrays and every 31-bit key, 8-lane accumulation, RawConnector::cost and DualConnector::cost arithmetic on parts-built connectors with symbolic feature rows / class maps / matrix cells",
+         "construction from bigram.right/left/cost text (from_readers, template split, interning) is outside the claim; ScorerBuilder::build on concrete key sets is attempted in the thorough tier (BTreeMap iteration does not fold: non-core); AVX2 path not modelled by Kani"),
+ "C08": ("system {a} + user {ab} vs system {a,ab} with shared symbolic parameters: same optimal cost, same candidate counts, the user word offered as a user-lexicon candidate with the same prefix minimum, system words still available; reset_user_lexicon_from_reader(None) removes every user candidate",
+         "loading/replacing a user lexicon from CSV text is outside the claim (WordMapBuilder's BTreeMap and the crawdad builder do not fold under CBMC); id verification is covered under C10 (c10_verify_ids)"),
  "C09": ("foreign magic (all 21 header bytes symbolic) and every truncation point inside the header are rejected; hand-written decoders (U31 range, Scorer array consistency) on symbolic bytes",
          "truncation points inside the bincode body: attempted in the thorough tier (symbolic truncation point over a 359-byte image), listed as no-verdict when the solver does not finish; not counted as covered"),
  "C10": ("numeric/packing kernels: CharInfo::new bit packing for all inputs; mapping validation (see C06); accepted-dictionary-implies-safe-use through the C01 pipeline instances",
@@ -23,9 +27,7 @@ CLAIMED = {
 }
 NA = {
  "C05": "whole-image write/read is not within reach of the solver here (decoding a 359-byte image did not fold: >10 min, >10 GB); per-codec checks of the hand-written decoders live under C09; AVX2 intrinsics are not modelled by Kani",
- "C07": "check not built yet (scorer lookup/accumulate and connector arithmetic are planned; construction from text is out of reach)",
- "C08": "check not built yet (needs CSV loading inside the solver; feasibility established with csv-core in NFA mode)",
- "C11": "check not built yet (parse_csv on concrete row shapes with symbolic content; feasibility established)",
+ "C11": "parse_csv folds only on fully concrete rows (6 s with csv-core in NFA mode and 5000-element field sensitivity); with symbolic content bytes csv-core's state machine becomes symbolic at every byte and an 11-byte row gave no verdict in 12 minutes (attempt kept in kani/c11_attempt.rs.txt). A concrete-row run decides nothing a unit test does not.",
  "C14": "values come from rucrf L-BFGS training (f64 loops to convergence); no bounded encoding of a trained model is within reach",
  "C15": "needs a trained model and decoding of an image that embeds a 65536-entry table; not constructible/decodable inside the solver",
  "C16": "relates two text emissions of a trained model through f64 scaling and from_readers text parsing; out of reach (see C14, C07)",
